@@ -140,13 +140,13 @@ def _compare_step(ctx, name, G, s, a, s2, obs2, rew, term, info, first, tags):
     if d_obs > 1.0:
         idx = int(np.argmax(np.abs(_np(obs2) - _np(gobs))))
         ctx.fail(f"C17/{name}/observation-after-step-differs", tags=tags, index=idx, lerax=float(_np(obs2)[idx]), reference=float(_np(gobs)[idx]), contact=bool(contact))
-    if not np.isclose(float(rew), float(grew), rtol=2e-4, atol=2e-4):
-        comps = {k: (float(np.asarray(info[k])), float(ginfo[k])) for k in info if k in ginfo and np.ndim(ginfo[k]) == 0 and not np.isclose(float(np.asarray(info[k])), float(ginfo[k]), rtol=2e-4, atol=2e-4)}
+    if not np.isclose(float(rew), float(grew), rtol=2e-4, atol=3e-5):
+        comps = {k: (float(np.asarray(info[k])), float(ginfo[k])) for k in info if k in ginfo and np.ndim(ginfo[k]) == 0 and not np.isclose(float(np.asarray(info[k])), float(ginfo[k]), rtol=2e-4, atol=3e-5)}
         ctx.fail(f"C17/{name}/reward-differs-{which}", tags=tags, lerax=float(rew), reference=float(grew), differing_components=comps, contact=bool(contact))
     ctx.check(bool(term) == bool(gterm), f"C17/{name}/terminated-differs", tags=tags, lerax=bool(term), reference=bool(gterm))
     for k in info:
         if k in ginfo and np.ndim(ginfo[k]) == 0:
-            if not np.isclose(float(np.asarray(info[k])), float(ginfo[k]), rtol=2e-4, atol=2e-4):
+            if not np.isclose(float(np.asarray(info[k])), float(ginfo[k]), rtol=2e-4, atol=3e-5):
                 ctx.fail(f"C17/{name}/reward-component-differs/{k}-{which}", tags=tags, lerax=float(np.asarray(info[k])), reference=float(ginfo[k]), contact=bool(contact))
     return bool(gterm), bool(contact)
 
